@@ -74,6 +74,26 @@ CLAIMED = {
             "tie allowed) or has strictly positive mass (sampling strategies). The same relation is model-checked on "
             "PoolQuery/Selection for all tie patterns in the small scope.",
             "DESIGN.md 5 (C02)", TRUST),
+    "C14": ("TLA+ module ALLoop (query/reveal loop; invariants OnlyUnlabeled, NeverTwice, ExhaustedExactly, "
+            "termination under weak fairness) model-checked by TLC; whole loops of every registered strategy "
+            "configuration recorded and validated as ALLoopTrace behaviours",
+            "TLC explores every loop over pools of up to 4-5 samples (all initial labelings, batch sizes and valid "
+            "batches per cycle); the README loop is then run with one strategy object per loop (state kept between "
+            "cycles is part of the history) for every exported pool strategy on TLC-enumerated initial labelings from "
+            "zero labels to one unlabeled sample, batch sizes up to #unlabeled+1, degenerate geometries and two oracle "
+            "patterns, and TLC validates the whole history: every batch only contains still unlabeled samples, nothing "
+            "is queried twice, and the pool is exhausted after exactly ceil(u/batch_size) queries.",
+            "DESIGN.md 5 (C14)", TRUST),
+    "C05": ("TLA+ module Frame (frame condition of Query as an action property) model-checked by TLC; FrameTrace "
+            "validates digests of caller arrays, model argument and get_params before/after every query of 1-3 call "
+            "histories, pickling and clone-vs-fresh behaviour",
+            "Every registered pool strategy configuration (incl. lazily resolved None defaults and caller-owned dict "
+            "parameters) is driven through histories of 1-3 consecutive queries chosen from TLC-enumerated scenarios; "
+            "after each call TLC compares the ids of SHA-1 digests of X, y, candidates, sample_weight, utility_weight, "
+            "of the model argument (deep parameters and fitted attributes) and of the strategy's deep parameters with "
+            "those before the call, requires pickle.dumps to succeed, and requires a clone of the used strategy to "
+            "return what a freshly constructed strategy returns.",
+            "DESIGN.md 5 (C05)", TRUST),
 }
 
 NOT_YET = {}
